@@ -14,7 +14,8 @@ P == <<"p">>
 Q == <<"q">>
 ElemQ == {[pre |-> <<>>, lo |-> <<"a">>], [pre |-> P, lo |-> <<"a">>], [pre |-> Q, lo |-> <<"b">>]}
 DeclSets == {<<>>, <<B(P, U1)>>, <<B(<<>>, U1)>>, <<B(<<>>, <<>>)>>, <<B(P, U2)>>, <<B(Q, U1), B(<<>>, U2)>>, <<B(XmlPre, XmlUri), B(P, U1)>>}
-AttrSets == {<<>>, <<[pre |-> <<>>, lo |-> <<"x">>, v |-> <<"1">>]>>, <<[pre |-> P, lo |-> <<"x">>, v |-> <<"a", "sp", "<">>], [pre |-> <<>>, lo |-> <<"y">>, v |-> <<>>]>>}
+AttrSets == {<<>>, <<[pre |-> <<>>, lo |-> <<"x">>, v |-> <<"1">>]>>, <<[pre |-> <<>>, lo |-> <<"w">>, v |-> <<"a", "nl", "tab", "b", "cr">>]>>,   \* (white space written as &#10; &#9; &#13;)
+             <<[pre |-> P, lo |-> <<"x">>, v |-> <<"a", "sp", "<">>], [pre |-> <<>>, lo |-> <<"y">>, v |-> <<>>]>>}
 CharItems == {[k |-> "chars", v |-> <<"t">>, how |-> "plain"], [k |-> "chars", v |-> <<"<", "c", "&">>, how |-> "cdata"],
               [k |-> "chars", v |-> <<"&", "w2">>, how |-> "ref"], [k |-> "chars", v |-> <<"sp", "nl">>, how |-> "plain"],
               [k |-> "chars", v |-> <<"a", "b", "c">>, how |-> "split3"]}    \* written as text, CDATA section, text: still ONE text node
@@ -53,7 +54,8 @@ StartTags == IF ItemPool = "starts" THEN   \* nesting chains: only what matters 
              ELSE IF FullProduct THEN {<<q, ds, as>> : q \in ElemQ, ds \in DeclSets, as \in AttrSets}
              ELSE { <<A_, <<>>, <<>>>>, <<A_, <<B(<<>>, U1)>>, X1>>, <<PA, <<B(P, U1)>>, PX>>, <<A_, <<B(<<>>, <<>>)>>, <<>>>>,
                     <<PA, <<B(P, U2)>>, <<>>>>, <<QB, <<B(Q, U1), B(<<>>, U2)>>, X1>>, <<A_, <<B(P, U1)>>, <<>>>>, <<PA, <<>>, X1>>,
-                    <<A_, <<B(XmlPre, XmlUri), B(P, U1)>>, <<[pre |-> XmlPre, lo |-> <<"l","a","n","g">>, v |-> <<"e","n">>]>>>> }
+                    <<A_, <<B(XmlPre, XmlUri), B(P, U1)>>, <<[pre |-> XmlPre, lo |-> <<"l","a","n","g">>, v |-> <<"e","n">>]>>>>,
+                    <<A_, <<>>, <<[pre |-> <<>>, lo |-> <<"w">>, v |-> <<"a", "nl", "tab", "b", "cr">>]>>>> }
 Next == \/ \E t \in StartTags : Start(t[1], t[2], t[3])
         \/ End \/ (ItemPool = "all" /\ (\E c \in CharItems : Chars(c) \/ \E o \in Others : Other(o)))
 
